@@ -245,3 +245,14 @@ Definition msa_case_code (c : msa_case) : nat :=
       end
   | None => 1 + bit 1 contract + bit 2 (msa_okb cf impl)
   end.
+
+(* several prog_align / lib_align calls on one object: every call starts a new epoch (new class
+   strings, new unique sequences, new guide tree) that is computed from the inputs alone *)
+Fixpoint msa_cases_code (l : list msa_case) : nat :=
+  match l with
+  | [] => 0
+  | c :: t => match msa_case_code c with
+              | O => msa_cases_code t
+              | k => k
+              end
+  end.
